@@ -33,7 +33,7 @@ def _replay(model, rec, seed):
     fam = None
     via = 'check_prior' in fuc
     if via:
-        fam = fuc.split('@')[1].replace('+positive', '')
+        fam = fuc.split('@')[1].replace('+positive', '').replace('pair:', '')
     else:
         fam = fuc.split('.')[-1].replace('_prior', '').replace('_', '-')
     if fam not in _PARAMS:
